@@ -16,7 +16,7 @@ THEOREMS = [
     "c16_sync_mode_writes_through", "c16_rotation_gc_history", "c16_reopen_same_name_appends",
     "c16_gc_keeps_newest", "c16_gc_keeps_only_within_bound", "c16_gc_incl", "c16_gc_keeps_current",
     "c16_extended_program_name_not_listed", "c16_gc_other_programs_untouched", "c16_gc_own_files",
-    "c16_gc_other_loggers_unchanged",
+    "c16_gc_other_loggers_unchanged", "c16_gc_ignores_host_user_pid",
 ]
 REFUTED = ["c16_round_trip_refuted"]
 HEADER = ("From Shk Require Import Base.Prelude Model.LogCodec Model.LogRotate Corr.C16.\n"
@@ -300,7 +300,7 @@ def run(tier, seed):
                  "raw: one perturbation of a valid stream (30 kinds: separators, impossible dates, truncation, garbage, CRLF, out-of-range numbers), decoder vs model; distinct by stream. "
                  "probe: 20 kinds of entries outside the guards (white space at message edges, colon/empty/newline file names, negative numbers, years outside 2000-2068, multi-line messages), model agreement only. "
                  "hist: real main/secondary logger in a fresh directory, LogFileMaxSize in {64..4096} around the measured header size, entry sizes steered to the rotation threshold +-2 using the real syncBuffer.nbytes, "
-                 "threshold changes, snapshots (flush, list, decode every file), SetSync(true) followed by a flush and a snapshot with no write in between (and SetSync(false) back), looks at the files without a flush while in sync mode, GC runs with bounds at the cumulative sizes +-1 / 0 / MaxInt64, planted older files (empty, zero-filled or holding formatted messages of their own; named after the real or after another host/user so that name order and time-stamp order differ), FetchEntriesFromFiles on the main logger; gc-only: planted file sets + GC; reopen: the file is closed and written to again at once (same second: create() generates the name the file already has), only while the newest name is not ahead of the clock; the model runs with the observed file time stamps as its clock. "
+                 "threshold changes, snapshots (flush, list, decode every file), SetSync(true) followed by a flush and a snapshot with no write in between (and SetSync(false) back), looks at the files without a flush while in sync mode, GC runs with bounds at the cumulative sizes +-1 / 0 / MaxInt64, planted older files (empty, zero-filled or holding formatted messages of their own; named after the real or after another host/user and with this or another process id in the name, so that name order and time-stamp order differ and leftovers of other processes are present), FetchEntriesFromFiles on the main logger; gc-only: planted file sets + GC; reopen: the file is closed and written to again at once (same second: create() generates the name the file already has), only while the newest name is not ahead of the clock; the model runs with the observed file time stamps as its clock. "
                  "non-trivial = at least two files at the end or a GC run; distinct by operation list. "
                  "multi: the main logger and one or two secondary loggers (the name of one a prefix of the other's, as the main logger's program name is of both) plus sometimes a program without logger whose name extends the main logger's, all in one directory, "
                  "older files of any of them planted; interleaved logging with sizes steered to each logger's threshold, GC runs of one logger with small bounds / bounds at its own cumulative sizes +-1, snapshots by scanning the directory and parsing names (not through listLogFiles), "
